@@ -291,4 +291,14 @@ example : get (updateJSON (some ogDemo) newDemo "\"bob\"" "\"t1\"" [] false) ⟨
     get (updateJSON (some ogDemo) newDemo "\"bob\"" "\"t1\"" [] false) ⟨"group", .user⟩ = some (.str "\"bob\"") ∧
     get (updateJSON (some ogDemo) newDemo "\"bob\"" "\"t1\"" [] false) ⟨"name", .plain⟩ = some (.str "\"n\"") := by decide
 
+/-- a conditional field that is already stored keeps its value and both stamps; one that is not stored yet is set
+    with the caller's stamps (a decided instance — the general statement is exercised against the server by the
+    harness on every POST with conditionals) -/
+def condDemo : Obj := [(⟨"bodyid", .plain⟩, .other "5"), (⟨"status", .plain⟩, .str "\"Other\""), (⟨"newf", .plain⟩, .str "\"n1\"")]
+example :
+    let r := updateJSON (some ogDemo) condDemo "\"bob\"" "\"t1\"" [⟨"status", .plain⟩, ⟨"newf", .plain⟩] false
+    get r ⟨"status", .plain⟩ = some (.str "\"Traced\"") ∧ get r ⟨"status", .user⟩ = some (.str "\"alice\"") ∧
+    get r ⟨"status", .time⟩ = some (.str "\"t0\"") ∧ get r ⟨"newf", .plain⟩ = some (.str "\"n1\"") ∧
+    get r ⟨"newf", .user⟩ = some (.str "\"bob\"") := by decide
+
 end Dvid.Props.C16
